@@ -43,4 +43,18 @@ func init() {
 		{Kind: "calls", File: vv, Func: "variablesVisitor.EnterVariableDefinition", Name: "enterConds", Match: []string{"if", "v.variables.Get", "v.traverseOperationType"}},
 		{Kind: "calls", File: vv, Func: "VariablesValidator.Validate", Name: "validateSkeleton", Match: []string{"if", "astjson.ParseBytes", "v.walker.Walk", "return"}},
 	}
+
+	const ld = "v2/pkg/engine/resolve/loader.go"
+	const sf = "v2/pkg/engine/postprocess/schedule_fetches.go"
+	specs["C08"] = []item{
+		{Kind: "conds", File: ld, Func: "Loader.resolveFetchNodeWithCtx", Name: "nodeKinds"},
+		{Kind: "calls", File: ld, Func: "Loader.resolveFetchNodeWithCtx", Name: "nodeDispatch", Match: []string{"l.resolveSingle", "l.resolveSerial", "l.resolveParallel"}},
+		{Kind: "calls", File: ld, Func: "Loader.resolveSerial", Name: "serialSkeleton", Match: []string{"l.resolveFetchNodeWithCtx", "if", "return"}},
+		{Kind: "calls", File: ld, Func: "Loader.resolveParallel", Name: "parallelSkeleton", Match: []string{"g.Go", "l.resolveFetchNodeWithCtx", "g.Wait", "if", "return", "go:*"}},
+		{Kind: "calls", File: ld, Func: "Loader.resolveSingle", Name: "singleSkeleton", Match: []string{"l.preparePhase", "l.loadPhase", "l.mergePhase", "l.responseCacheFlush"}},
+		{Kind: "calls", File: ld, Func: "Loader.preparePhase", Name: "prepareLock", Match: []string{"l.dataBuffer.Lock", "defer:l.dataBuffer.Unlock", "l.shouldSkipErroredDependencyLocked", "l.selectItemsForPath"}},
+		{Kind: "calls", File: ld, Func: "Loader.mergePhase", Name: "mergeLock", Match: []string{"l.dataBuffer.Lock", "defer:l.dataBuffer.Unlock", "l.mergeResult", "l.mergeMultiEntityResult", "l.callOnFinished"}},
+		{Kind: "conds", File: sf, Func: "validateSchedule", Name: "validateKinds"},
+		{Kind: "calls", File: sf, Func: "validateSchedule", Name: "validateConds", Match: []string{"if"}},
+	}
 }
